@@ -175,3 +175,294 @@ Proof.
 Qed.
 End Collect.
 Print Assumptions collect_valid.
+
+(* ------------------------------------------------------------------------- *)
+(** * 3. well-formedness invariant                                             *)
+(* ------------------------------------------------------------------------- *)
+
+Definition stmt_ok (st : gstate) (s : stmt) : bool :=
+  match s with
+  | SApp _ _ o => cop_wf_at Z 0%Z 1%Z Z.mul (g_vals st) (length (g_vals st)) o
+  | _ => true
+  end.
+
+Definition lens_ok (st : gstate) : Prop :=
+  length (g_nodes st) = length (g_vals st) /\
+  length (g_cleared st) = length (g_vals st) /\
+  length (g_hasops st) = length (g_vals st) /\
+  length (g_grad st) = length (g_vals st).
+
+Definition Inv (st : gstate) : Prop :=
+  lens_ok st /\ wf Z (g_nodes st) /\ ops_ok Z 0%Z Z.add Z.mul (g_nodes st).
+
+(* every statement is ok at the state where it executes *)
+Fixpoint hist_ok (st : gstate) (h : list stmt) : bool :=
+  match h with
+  | [] => true
+  | s :: h' => stmt_ok st s && hist_ok (fst (exec_stmt st s)) h'
+  end.
+
+Lemma Inv_init : Inv g_init.
+Proof.
+  split; [repeat split|]. split.
+  - intros k c o H. destruct k; discriminate.
+  - intros k c o H. destruct k; discriminate.
+Qed.
+
+(* Inv only looks at the lengths and at g_nodes *)
+Lemma Inv_transfer (st st' : gstate) :
+  Inv st -> g_vals st' = g_vals st -> g_nodes st' = g_nodes st ->
+  length (g_cleared st') = length (g_cleared st) ->
+  length (g_hasops st') = length (g_hasops st) ->
+  length (g_grad st') = length (g_grad st) -> Inv st'.
+Proof.
+  intros ((L1 & L2 & L3 & L4) & W & O) Ev En Ec Eh Eg.
+  unfold Inv, lens_ok. rewrite Ev, En, Ec, Eh, Eg. repeat split; assumption.
+Qed.
+
+Lemma wf_snoc (P : list znode) (n : znode) :
+  wf Z P -> (forall c o, n = App Z c o -> Forall (fun i => i < length P) (ins Z o)) -> wf Z (P ++ [n]).
+Proof.
+  intros W Hn k c o H. apply nth_error_snoc in H. destruct H as [H|[-> H]].
+  - exact (W k c o H).
+  - apply (Hn c o). symmetry. exact H.
+Qed.
+
+Lemma ops_ok_snoc (P : list znode) (n : znode) :
+  ops_ok Z 0%Z Z.add Z.mul P -> (forall c o, n = App Z c o -> op_ok Z 0%Z Z.add Z.mul o) ->
+  ops_ok Z 0%Z Z.add Z.mul (P ++ [n]).
+Proof.
+  intros W Hn k c o H. apply nth_error_snoc in H. destruct H as [H|[-> H]].
+  - exact (W k c o H).
+  - apply (Hn c o). symmetry. exact H.
+Qed.
+
+(* a well-formed concrete operation, linearised at `vals`, is a well-formed exact abstract operation *)
+Lemma linearize_ok (vals : list zvec) (k : nat) (o : zcop) :
+  cop_wf_at Z 0%Z 1%Z Z.mul vals k o = true ->
+  let o' := to_op Z 0%Z Z.add Z.mul (linearize Z 0%Z 1%Z Z.mul vals o) in
+  Forall (fun i => i < k) (ins Z o') /\ op_ok Z 0%Z Z.add Z.mul o'.
+Proof.
+  intros Hop o'. unfold cop_wf_at in Hop. apply andb_prop in Hop. destruct Hop as [Hsrc Hl].
+  split; [|apply (lop_ok Z 0%Z 1%Z Z.add Z.mul Z.sub Z.opp InitialRing.Zth); exact Hl].
+  unfold o'. simpl. rewrite map_map.
+  rewrite Forall_forall. intros i Hi. apply in_map_iff in Hi. destruct Hi as ((p & a) & <- & Hin).
+  simpl. apply in_combine_r in Hin. rewrite forallb_forall in Hsrc. apply Nat.ltb_lt. apply Hsrc. exact Hin.
+Qed.
+
+Lemma Inv_do_leaf (st : gstate) (c : bool) (v : zvec) : Inv st -> Inv (do_leaf st c v).
+Proof.
+  intros ((L1 & L2 & L3 & L4) & W & O). unfold do_leaf. split; [|split]; simpl.
+  - unfold lens_ok; simpl. rewrite !app_length; simpl. lia.
+  - apply wf_snoc; [exact W|]. intros c' o' E. discriminate.
+  - apply ops_ok_snoc; [exact O|]. intros c' o' E. discriminate.
+Qed.
+
+Lemma Inv_do_app (st : gstate) (fc : option bool) (vw : bool) (o : zcop) :
+  Inv st -> stmt_ok st (SApp fc vw o) = true -> Inv (fst (do_app st fc vw o)).
+Proof.
+  intros HI Hok. pose proof HI as ((L1 & L2 & L3 & L4) & W & O). simpl in Hok.
+  unfold do_app.
+  match goal with |- context [if negb ?b then _ else _] => destruct (negb b) end; [exact HI|].
+  destruct (linearize_ok _ _ _ Hok) as [Hins Hop].
+  split; [|split]; simpl.
+  - unfold lens_ok; simpl. rewrite !app_length; simpl. rewrite length_set_all.
+    destruct vw; [|rewrite length_set_all]; lia.
+  - apply wf_snoc; [exact W|]. intros c' o' E. inversion E; subst o'. rewrite L1. exact Hins.
+  - apply ops_ok_snoc; [exact O|]. intros c' o' E. inversion E; subst o'. exact Hop.
+Qed.
+
+Lemma clear_from_len : forall (fuel : nat) (nodes : list znode) (t : nat) (acc : list bool * list bool),
+  length (fst (clear_from fuel nodes t acc)) = length (fst acc) /\
+  length (snd (clear_from fuel nodes t acc)) = length (snd acc).
+Proof.
+  induction fuel as [|f IH]; intros nodes t [cl ho]; simpl; [split; reflexivity|].
+  destruct (nth t nodes (Leaf Z true)) as [c|c o]; simpl.
+  - rewrite length_set_nth. split; reflexivity.
+  - destruct (nth t cl true); simpl.
+    + rewrite length_set_nth. split; reflexivity.
+    + assert (Hfold : forall (is : list nat) (acc : list bool * list bool),
+                length (fst (fold_left (fun a i => clear_from f nodes i a) is acc)) = length (fst acc) /\
+                length (snd (fold_left (fun a i => clear_from f nodes i a) is acc)) = length (snd acc)).
+      { induction is as [|i is IHis]; intros acc; simpl; [split; reflexivity|].
+        destruct (IHis (clear_from f nodes i acc)) as [E1 E2].
+        destruct (IH nodes i acc) as [E3 E4]. rewrite E1, E2, E3, E4. split; reflexivity. }
+      destruct (Hfold (ins Z o) (set_nth cl t true, set_nth ho t false)) as [E1 E2].
+      simpl in E1, E2. rewrite !length_set_nth in *. split; assumption.
+Qed.
+
+Lemma do_clear_fields (st : gstate) (t : nat) :
+  g_vals (do_clear st t) = g_vals st /\ g_nodes (do_clear st t) = g_nodes st /\
+  g_grad (do_clear st t) = g_grad st /\
+  length (g_cleared (do_clear st t)) = length (g_cleared st) /\
+  length (g_hasops (do_clear st t)) = length (g_hasops st).
+Proof.
+  unfold do_clear.
+  pose proof (clear_from_len (S t) (g_nodes st) t (g_cleared st, g_hasops st)) as [E1 E2].
+  destruct (clear_from (S t) (g_nodes st) t (g_cleared st, g_hasops st)) as [cl ho].
+  simpl in *. repeat split; assumption.
+Qed.
+
+Lemma Inv_do_clear (st : gstate) (t : nat) : Inv st -> Inv (do_clear st t).
+Proof.
+  intros HI. destruct (do_clear_fields st t) as (E1 & E2 & E3 & E4 & E5).
+  apply (Inv_transfer st); try assumption. now rewrite E3.
+Qed.
+
+(* the gradient write-back loop of Tensor.backward *)
+Definition write_grads (G : list zvec) (order : list nat) (gr : list (option zvec)) : list (option zvec) :=
+  fold_left (fun gr k => match nth k G [] with [] => gr | v => set_nth gr k (Some v) end) order gr.
+
+Lemma length_write_grads (G : list zvec) (order : list nat) :
+  forall gr, length (write_grads G order gr) = length gr.
+Proof.
+  unfold write_grads. induction order as [|k order IH]; intros gr; simpl; [reflexivity|].
+  rewrite IH. destruct (nth k G []); [reflexivity|apply length_set_nth].
+Qed.
+
+(* shape of do_backward on a valid non-constant target *)
+Definition bw_seed (st : gstate) (t : nat) (seed : option zvec) : zvec :=
+  match seed with Some g => g | None => repeat 1%Z (length (nth t (g_vals st) [])) end.
+Definition bw_G0 (st : gstate) (t : nat) (seed : option zvec) : list zvec :=
+  upd Z Z.add (repeat [] (length (g_vals st))) t (bw_seed st t seed).
+Definition bw_state (st : gstate) (t : nat) (G : list zvec) : gstate :=
+  {| g_vals := g_vals st; g_nodes := g_nodes st; g_cleared := g_cleared st; g_hasops := g_hasops st;
+     g_grad := write_grads G (order_of st t) (set_all (g_grad st) (order_of st t) None) |}.
+
+Lemma do_backward_cases (st : gstate) (t : nat) (seed : option zvec) :
+  (t < length (g_vals st) -> False) /\ do_backward st t seed = (st, BadStmt)
+  \/ t < length (g_vals st) /\ n_const st t = true /\ do_backward st t seed = (do_clear st t, Ok)
+  \/ t < length (g_vals st) /\ n_const st t = false /\
+     exists G err, sweep_chk (g_eff st) (g_hasops st) (order_of st t) (bw_G0 st t seed) = (G, err) /\
+       do_backward st t seed =
+         if err then (bw_state st t G, InvalidBackprop) else (do_clear (bw_state st t G) t, Ok).
+Proof.
+  unfold do_backward.
+  destruct (Nat.ltb_spec t (length (g_vals st))) as [Ht|Ht]; simpl.
+  2:{ left. split; [lia|reflexivity]. }
+  right. destruct (n_const st t) eqn:Hc.
+  - left. repeat split; auto.
+  - right. split; [exact Ht|]. split; [reflexivity|].
+    fold (bw_seed st t seed). fold (bw_G0 st t seed).
+    destruct (sweep_chk (g_eff st) (g_hasops st) (order_of st t) (bw_G0 st t seed)) as [G err] eqn:E.
+    exists G, err. split; [reflexivity|]. reflexivity.
+Qed.
+
+Lemma Inv_bw_state (st : gstate) (t : nat) (G : list zvec) : Inv st -> Inv (bw_state st t G).
+Proof.
+  intros HI. apply (Inv_transfer st); try reflexivity; [exact HI|].
+  simpl. rewrite length_write_grads, length_set_all. reflexivity.
+Qed.
+
+Lemma Inv_do_backward (st : gstate) (t : nat) (seed : option zvec) :
+  Inv st -> Inv (fst (do_backward st t seed)).
+Proof.
+  intros HI.
+  destruct (do_backward_cases st t seed) as [[_ E]|[(_ & _ & E)|(_ & _ & G & err & _ & E)]]; rewrite E.
+  - exact HI.
+  - apply Inv_do_clear. exact HI.
+  - destruct err; simpl.
+    + apply Inv_bw_state. exact HI.
+    + apply Inv_do_clear. apply Inv_bw_state. exact HI.
+Qed.
+
+Theorem Inv_exec_stmt (st : gstate) (s : stmt) :
+  Inv st -> stmt_ok st s = true -> Inv (fst (exec_stmt st s)).
+Proof.
+  intros HI Hok. destruct s as [c v|fc vw o|t seed|t|t]; simpl.
+  - apply Inv_do_leaf. exact HI.
+  - apply Inv_do_app; assumption.
+  - apply Inv_do_backward. exact HI.
+  - destruct (t <? length (g_vals st)); simpl; [apply Inv_do_clear|]; exact HI.
+  - destruct (t <? length (g_vals st)); simpl; [|exact HI].
+    apply (Inv_transfer st); try reflexivity; [exact HI|]. simpl. apply length_set_nth.
+Qed.
+
+Lemma run_hist_cons (st : gstate) (s : stmt) (h : list stmt) :
+  fst (run_hist st (s :: h)) = fst (run_hist (fst (exec_stmt st s)) h).
+Proof.
+  simpl. destruct (exec_stmt st s) as [st1 o]. simpl.
+  destruct (run_hist st1 h) as [st2 os]. reflexivity.
+Qed.
+
+Lemma run_hist_app (h1 h2 : list stmt) : forall st,
+  fst (run_hist st (h1 ++ h2)) = fst (run_hist (fst (run_hist st h1)) h2).
+Proof.
+  induction h1 as [|s h1 IH]; intros st; [reflexivity|].
+  rewrite <- app_comm_cons. rewrite !run_hist_cons. apply IH.
+Qed.
+
+Lemma hist_ok_app (h1 h2 : list stmt) : forall st,
+  hist_ok st (h1 ++ h2) = hist_ok st h1 && hist_ok (fst (run_hist st h1)) h2.
+Proof.
+  induction h1 as [|s h1 IH]; intros st; [reflexivity|].
+  rewrite <- app_comm_cons. simpl hist_ok. rewrite IH. rewrite run_hist_cons.
+  now rewrite andb_assoc.
+Qed.
+
+Theorem Inv_run_hist (h : list stmt) : forall st,
+  Inv st -> hist_ok st h = true -> Inv (fst (run_hist st h)).
+Proof.
+  induction h as [|s h IH]; intros st HI Hok; [exact HI|].
+  simpl in Hok. apply andb_prop in Hok. destruct Hok as [Hs Hh].
+  rewrite run_hist_cons. apply IH; [apply Inv_exec_stmt; assumption|exact Hh].
+Qed.
+
+(* every state reached along a well-formed history satisfies Inv *)
+Corollary Inv_reachable (h1 h2 : list stmt) :
+  hist_ok g_init (h1 ++ h2) = true -> Inv (fst (run_hist g_init h1)).
+Proof.
+  intros H. rewrite hist_ok_app in H. apply andb_prop in H. destruct H as [H1 _].
+  apply Inv_run_hist; [apply Inv_init|exact H1].
+Qed.
+
+(* ---- the effective graph (cleared creators become leaves) ---- *)
+Lemma eff_nodes_length (ns : list znode) : forall cl, length (eff_nodes ns cl) = length ns.
+Proof.
+  induction ns as [|n ns IH]; intros [|c cl]; simpl; try reflexivity. now rewrite IH.
+Qed.
+
+Lemma eff_node_App (n : znode) (b c : bool) (o : op Z) : eff_node n b = App Z c o -> n = App Z c o.
+Proof. destruct n as [c'|c' o']; destruct b; simpl; intros H; try discriminate; exact H. Qed.
+
+Lemma eff_node_nconst (n : znode) (b : bool) : nconst Z (eff_node n b) = nconst Z n.
+Proof. destruct n as [c'|c' o']; destruct b; reflexivity. Qed.
+
+Lemma eff_nodes_nth_error (ns : list znode) : forall cl k c o,
+  nth_error (eff_nodes ns cl) k = Some (App Z c o) -> nth_error ns k = Some (App Z c o).
+Proof.
+  induction ns as [|n ns IH]; intros [|b cl] k c o H; simpl in *; try exact H.
+  destruct k as [|k]; simpl in *.
+  - inversion H as [E]. rewrite E. apply eff_node_App in E. now rewrite E.
+  - apply (IH cl). exact H.
+Qed.
+
+Lemma eff_nodes_nconst (ns : list znode) : forall cl k,
+  nconst Z (nth k (eff_nodes ns cl) (Leaf Z true)) = nconst Z (nth k ns (Leaf Z true)).
+Proof.
+  induction ns as [|n ns IH]; intros [|b cl] k; simpl; try reflexivity.
+  destruct k as [|k]; [apply eff_node_nconst|apply IH].
+Qed.
+
+Lemma g_eff_length (st : gstate) : length (g_eff st) = length (g_nodes st).
+Proof. apply eff_nodes_length. Qed.
+
+Lemma g_eff_isconst (st : gstate) (k : nat) : isconst Z (g_eff st) k = n_const st k.
+Proof. apply eff_nodes_nconst. Qed.
+
+Lemma g_eff_wf (st : gstate) : wf Z (g_nodes st) -> wf Z (g_eff st).
+Proof. intros W k c o H. apply (W k c o). eapply eff_nodes_nth_error. exact H. Qed.
+
+Lemma g_eff_ops_ok (st : gstate) : ops_ok Z 0%Z Z.add Z.mul (g_nodes st) -> ops_ok Z 0%Z Z.add Z.mul (g_eff st).
+Proof. intros W k c o H. apply (W k c o). eapply eff_nodes_nth_error. exact H. Qed.
+
+Theorem Inv_g_eff (st : gstate) : Inv st ->
+  wf Z (g_eff st) /\ ops_ok Z 0%Z Z.add Z.mul (g_eff st) /\
+  length (g_eff st) = length (g_nodes st) /\ length (g_eff st) = length (g_vals st).
+Proof.
+  intros ((L1 & _) & W & O). split; [apply g_eff_wf; exact W|]. split; [apply g_eff_ops_ok; exact O|].
+  rewrite g_eff_length. split; [reflexivity|exact L1].
+Qed.
+Print Assumptions Inv_exec_stmt.
+Print Assumptions Inv_run_hist.
+Print Assumptions Inv_g_eff.
